@@ -23,7 +23,7 @@ def with_replicas(h, r, reps=3):
             # a block whose transactions did not come in through this node: every signature is verified in the pre-execution
             # stage (one goroutine per transaction); some are forged (signed by another key, bit-flipped)
             txs = o[len("block "):].split(" | ")
-            if not any(t.startswith(("raw", "sig:", "hdr:")) for t in txs) and sum(1 for t in txs if not t.startswith("eth")) >= 2:
+            if not any(t.startswith(("raw", "sig:", "hdr:", "again")) for t in txs) and sum(1 for t in txs if not t.startswith("eth")) >= 2:
                 # (the harness signs Ethereum transactions itself: they stay local)
                 o = "block " + " | ".join(t if t.startswith("eth") else f"sig:{r.choice(['ok', 'ok', 'other', 'bad'])} {t}" for t in txs)
                 mixed = True
@@ -59,6 +59,48 @@ def gen_evaluations(g, k, tier):
     return hs
 
 
+def gen_replayed_tx(g, k, tier):
+    """a block carries, byte for byte, a transaction an earlier block carried already (the executor does not look at the nonce of a
+    BitXHub transaction), and what decides about it has changed in between: an IBTP of chain c3 is accepted while the accept-everything
+    rule is c3's master rule, the master rule is changed back to the rejecting one, and the same IBTP transaction comes again — with a
+    stop and restart of one replica somewhere in between.  Whatever a node remembers about a transaction it has seen must not show"""
+    hs = []
+    for _ in range(k):
+        r = _r.Random(g.getrandbits(64))
+        ref = gen_dispatch.PRELUDE_PROPOSALS["ca3"]
+        ops = [f"world audit={r.choice([0, 1])} price=1"]
+        ntx = 0
+
+        def blk(*txs):
+            nonlocal ntx
+            ops.append("block " + " | ".join(txs))
+            ntx += len(txs)
+
+        def update(rule, k):
+            blk(f"bvm ca3 rule UpdateMasterRule s:c3 s:{gen_dispatch.RULES[rule]} s:reason")
+            for v in ("adm0", "adm1", "adm2"):
+                blk(f"bvm {v} gov Vote s:@ca3-{ref + k} s:approve s:r")
+            ops.append("q obj rule c3")
+        update("happy", 0)
+        if r.random() < 0.3:
+            ops.append("restart 0")
+        kT = ntx
+        blk("ibtp ca3 c3:s1 c4:s1 1 req 0 - ok")
+        if r.random() < 0.5:
+            blk("xfer u0 u1 1")
+        if r.random() < 0.4:
+            ops.append("restart 0")
+        update("simfabric", 1)
+        if r.random() < 0.6:
+            ops.append("restart 0")
+        blk(f"again {kT}")
+        blk(f"again {kT}", "ibtp ca3 c3:s1 c4:s1 2 req 0 - ok")
+        ops.append("q status 1356:c3:s1-1356:c4:s1-1")
+        ops.append("block")
+        hs.append(History(ops, tags={"replayed-transaction"}))
+    return hs
+
+
 def gen(rng, n, tier):
     hs = []
     kinds = [("mixed", lambda g, k: gen_exec.gen(g, k, tier, focus="mixed")),
@@ -68,6 +110,7 @@ def gen(rng, n, tier):
              ("c17", lambda g, k: gen_dispatch.gen_c17(g, k, tier)),
              ("c08", lambda g, k: gen_dispatch.gen_c08(g, k, tier)),
              ("c16", lambda g, k: gen_gov.gen_c16(g, k, tier)),
+             ("replay", lambda g, k: gen_replayed_tx(g, max(4, k // 4), tier)),
              ("eval", lambda g, k: gen_evaluations(g, max(3, k // 5), tier))]
     per = max(1, n // len(kinds))
     for name, f in kinds:
